@@ -125,7 +125,37 @@ func jsRegistrations(w *World, tb *TB) map[string]*ssa.Function {
 				return
 			}
 			t := tb.Of(cl)
-			if len(t.Args) != 3 || t.Args[0].String() != "call(syscall/js.Global)" || !t.Args[1].IsConst() {
+			if len(t.Args) != 3 || t.Args[0].String() != "call(syscall/js.Global)" {
+				return
+			}
+			if !t.Args[1].IsConst() {
+				// table-driven registration: Set(row.name, js.FuncOf(row.fn)) for the rows of a local array literal
+				nt, vt := t.Args[1], t.Args[2]
+				if nt.Op == "field" && vt.Op == "call" && vt.Sym == "syscall/js.FuncOf" && len(vt.Args) == 1 && vt.Args[0].Op == "field" &&
+					nt.Args[0].String() == vt.Args[0].Args[0].String() && nt.Args[0].Op == "index" {
+					arr := nt.Args[0].Args[0]
+					if arr.Op == "slice" {
+						arr = arr.Args[0]
+					}
+					if a, ok := arr.Val.(*ssa.Alloc); ok && arr.Op == "alloc" {
+						saved := tb.curLoad
+						tb.curLoad = nil
+						for k := 0; k < 64; k++ {
+							row := []string{fmt.Sprintf("[%d]", k)}
+							n := tb.cellContent(a, arr, append(append([]string(nil), row...), nt.Sym), nil)
+							fv := tb.cellContent(a, arr, append(append([]string(nil), row...), vt.Args[0].Sym), nil)
+							if n.Op == "zero" {
+								break
+							}
+							if name, err := unquote(n.Sym); err == nil && n.IsConst() && fv.Op == "fn" {
+								if fn, ok := fv.Val.(*ssa.Function); ok {
+									out[name] = fn
+								}
+							}
+						}
+						tb.curLoad = saved
+					}
+				}
 				return
 			}
 			name, err := unquote(t.Args[1].Sym)
